@@ -50,7 +50,10 @@ def to_run_cases(cases, engines=("mem", "disk"), mocks=True, split_inserts=True)
             pk = {t: "a" for t in G.TABLES} if (c["pk"] and eng == "disk") else None
             steps = []
             setup = G.setup_sql(c["db"], G.TABLES, pk=pk)
-            if eng == "disk" and split_inserts:
+            if c.get("inserts"):
+                # explicit layout: the case says how its rows are split into INSERTs (chunks / row-sets)
+                setup = [s for s in setup if s.startswith("create")] + list(c["inserts"])
+            elif eng == "disk" and split_inserts:
                 # several row-sets per table: one INSERT per row pair
                 setup = [s for s in setup if s.startswith("create")]
                 for t, rows in c["db"].items():
@@ -70,7 +73,7 @@ def to_run_cases(cases, engines=("mem", "disk"), mocks=True, split_inserts=True)
                         steps.append({"sql": f"set mock_rowcount_{t} = {n}"})
                     steps.append({"sql": c["sql"]}); lab.append((len(steps) - 1, f"{eng}.mock{m}"))
             runs.append({"id": f"{i}.{eng}", "engine": eng,
-                         "opts": {"block": 64 if i % 2 else 4096, "rowset": 268435456}, "steps": steps})
+                         "opts": {"block": c.get("block", 64 if i % 2 else 4096), "rowset": 268435456}, "steps": steps})
             labels.append(lab)
     return runs, labels
 
@@ -648,9 +651,40 @@ def seq_case(rnd):
     # (no subqueries here: with the real, small row counts of the disk engine their plans panic -- Q8)
     g = G.Gen(rnd, feat=dict(ENVELOPE, subq=()))
     used_keys = set()
+    # primary keys are not enforced unique: half of the key tables get runs of equal keys that span several
+    # blocks of one row-set (the key-range scan has to find both ends of such a run)
+    dup = pk and rnd.random() < 0.5
     for _ in range(rnd.choice([5, 7, 9])):
         k = rnd.random()
-        if k < 0.4:
+        if dup and k < 0.3:
+            rows = []
+            for _ in range(rnd.choice([1, 2, 3])):
+                key = rnd.randrange(0, 12)
+                used_keys.add(key)
+                for _ in range(rnd.choice([1, 2, 8, 14, 20])):
+                    rows.append([key, rnd.choice([0, 1, 2, 3] if nn else G.INTS), rnd.choice(G.STRS)])
+            rnd.shuffle(rows)
+            steps.append({"sql": "insert into t1 values " + ", ".join(
+                "(" + ", ".join(G.lit(v) for v in r) + ")" for r in rows), "kind": "dml"})
+        elif dup and k < 0.5:
+            x = rnd.choice(sorted(used_keys) or [1])
+            pred = rnd.choice([f"a = {x}", f"a <= {x}", f"a >= {x}", f"a >= {x} and a <= {x + rnd.choice([0, 1, 3])}",
+                               f"a > {x - 2} and a <= {x}", f"a < {x}"])
+            if rnd.random() < 0.3:
+                steps.append({"sql": f"delete from t1 where {pred}", "kind": "dml"})
+            else:
+                A = lambda c, ty=G.INT: ("col", "x1", c, ty)
+                m = re.fullmatch(r"a (=|<=|>=|<) (-?\d+)", pred)
+                if m:
+                    w = ("bin", m.group(1), A("a"), ("ci", int(m.group(2))), G.BOOL)
+                else:
+                    m = re.fullmatch(r"a (>=|>) (-?\d+) and a <= (-?\d+)", pred)
+                    w = ("bin", "and", ("bin", m.group(1), A("a"), ("ci", int(m.group(2))), G.BOOL),
+                         ("bin", "<=", A("a"), ("ci", int(m.group(3))), G.BOOL), G.BOOL)
+                q = dict(sel=[(A("a"), "c1"), (A("b"), "c2"), (A("c", G.STR), "c3")], frm=("t", "t1", "x1"), where=w,
+                         grp=[], hav=None, agg=False, dist=False, ord=[], lim=-1, off=0)
+                steps.append({"sql": G.sql_query(q), "kind": "query", "q": q})
+        elif k < 0.4:
             t = rnd.choice(["t1", "t1", "t2", "t3"])
             rows = []
             for _ in range(rnd.choice([1, 2, 3, 5])):
@@ -856,6 +890,61 @@ def c11_cases(seed, n):
     return out
 
 
+def c11_medium_cases(seed, n):
+    """Inputs of many chunks: 60-150 rows per table with runs of duplicate keys, stored with 64-byte blocks
+    (a scan batch ends every ~12 rows) and in three INSERTs, so that groups of equal keys straddle the chunk
+    boundaries the merge join / sort aggregation / top-n see."""
+    rnd = random.Random(seed)
+    out = []
+    for i in range(n):
+        dom = rnd.choice([12, 25, 40])
+        n1, n2 = rnd.choice([60, 100, 150]), rnd.choice([10, 20, 40])
+
+        def rows(k, nulls):
+            rs = []
+            while len(rs) < k:
+                key = rnd.randrange(dom)
+                for _ in range(rnd.choice([1, 1, 2, 3, 6, 14])):
+                    rs.append([key, rnd.choice([None, 0, 1, 2, 3]), rnd.choice([None, "", "a", "b", "ab"])])
+            rs = rs[:k]
+            if nulls:
+                for r in rnd.sample(rs, 3):
+                    r[0] = None
+            return rs
+        pk = i % 4 != 3
+        db = {"t1": rows(n1, not pk), "t2": rows(n2, not pk), "t3": []}
+        ins = []
+        for t in ("t1", "t2"):
+            rs = list(db[t])
+            rnd.shuffle(rs)
+            db[t] = rs
+            cuts = sorted(rnd.sample(range(1, len(rs)), 2))
+            for part in (rs[:cuts[0]], rs[cuts[0]:cuts[1]], rs[cuts[1]:]):
+                ins.append(f"insert into {t} values " + ", ".join("(" + ", ".join(G.lit(v) for v in r) + ")" for r in part))
+        A = lambda al, c, ty=G.INT: ("col", al, c, ty)
+        base = dict(where=None, grp=[], hav=None, agg=False, dist=False, ord=[], lim=-1, off=0)
+        kind = i % 3
+        if kind == 0:
+            l, r = ("t1", "t2") if rnd.random() < 0.5 else ("t2", "t1")
+            jt = rnd.choice(["inner", "inner", "left"])
+            on = ("bin", "=", A("x1", "a"), A("x2", "a"), G.BOOL)
+            sel = [(A("x1", "a"), "c1"), (A("x1", "b"), "c2"), (A("x2", "a"), "c3"), (A("x2", "c", G.STR), "c4")]
+            q = dict(base, sel=sel, frm=("join", jt, ("t", l, "x1"), ("t", r, "x2"), on))
+        elif kind == 1:
+            g = A("x1", "a")
+            aggs = [("agg", "count*"), ("agg", "sum", A("x1", "b"), G.INT), ("agg", "min", A("x1", "c", G.STR), G.STR),
+                    ("agg", "countd", A("x1", "b"), G.INT)]
+            sel = [g] + rnd.sample(aggs, 2)
+            q = dict(base, sel=[(e, f"c{k + 1}") for k, e in enumerate(sel)], frm=("t", "t1", "x1"), grp=[g], agg=True)
+        else:
+            sel = [(A("x1", "a"), "c1"), (A("x1", "b"), "c2"), (A("x1", "c", G.STR), "c3")]
+            q = dict(base, sel=sel, frm=("t", "t1", "x1"),
+                     ord=[(0, rnd.choice(["asc", "desc"])), (1, rnd.choice(["asc", "desc"])), (2, "asc")],
+                     lim=rnd.choice([1, 5, 13, 30]), off=rnd.choice([0, 11, 12, 13, 40]))
+        out.append({"db": db, "q": q, "sql": G.sql_query(q), "pk": pk, "inserts": ins, "block": 64})
+    return out
+
+
 def check_c11(args):
     t0 = time.time()
     seed, tier = seed_tier(args)
@@ -863,6 +952,7 @@ def check_c11(args):
     v = Verdict("C11")
     n = 1500 if tier == "thorough" else 180
     cases = c11_cases(seed * 83 + 6, n)
+    cases += c11_medium_cases(seed * 89 + 1, 240 if tier == "thorough" else 36)
     # larger inputs (many chunks) by replication: every row k times scales every bag in closed form
     runs, labels = to_run_cases(cases)
     # ask for the plans too: which implementation each configuration used
